@@ -273,5 +273,5 @@ func rawContiguous(file, path string, want []byte) *vt.Verdict {
 }
 
 func TestProp(t *testing.T) {
-	vt.Run(t, prop, vt.Sub[Case]{Prop: prop, Name: "roundtrip", Gen: gen, Run: run, Classify: classify}.WithBudget(6000, 60000))
+	vt.Run(t, prop, vt.Sub[Case]{Prop: prop, Name: "roundtrip", Gen: gen, Run: run, Classify: classify}.WithBudget(15000, 60000))
 }
